@@ -12,9 +12,87 @@ def ok_value(case, impl):
     return not (impl.startswith("err") or impl.startswith("panic") or impl in ("crash", "hang", "badcase"))
 
 
+FLD_MSG_RULE = ("field histories over generated coherent specs: every cell kind x encoding x 43 prefixers x padding at boundary lengths 0,1,max-1,max "
+                "(and max+1, where Pack must fail), random primitives with large lengths, composites of all four modes nested to depth 3 (2 values each), "
+                "each with pack, round trip with trailing bytes, re-pack and 1-4 mutated encodings; message histories over bitmaps with 1..16-byte blocks in both "
+                "expansion modes and boundary field numbers: populate, pack, unpack fresh and used, unset, mutants, truncation")
+
+
+def nt_ok(c, i):
+    return i != "panic" and " ok x" in (" " + i) and "(C" in c or "ok x" in i
+
+
+MODEL_TB = COMMON_TB + ["modelled, validated by correspondence: field/packer_unpacker.go, field/{string,numeric,binary,hex}.go, field/composite.go, message.go "
+                        "(Pack/Unpack/setters/GetFields/UnsetField) incl. the partial state a failed Unpack leaves behind and UnpackError field-id paths",
+                        "spec and value terms are built into library objects by harness/specterm.go (reflect.StructOf + Marshal for subfield population)"]
+
 PROPS = {
+    "C01": {
+        "topics": ["fld", "msg"],
+        "nontrivial": lambda c, i: "(set" in c and "| ok x" in i.replace("ok | ", "| "),
+        "rule": FLD_MSG_RULE + "; non-trivial = distinct history that populates a field or message and packs it successfully",
+        "trusted_base": MODEL_TB,
+        "assumptions": ["coherent specs and value domains as in DESIGN.md section 2", "Go slices are shorter than 2^63 bytes"],
+    },
+    "C02": {
+        "topics": ["fld", "msg"],
+        "nontrivial": lambda c, i: c.count("(unpack") > 0 and i.startswith("ok") ,
+        "rule": FLD_MSG_RULE + "; non-trivial = distinct byte string that Unpack accepts",
+        "trusted_base": MODEL_TB,
+        "assumptions": ["coherent specs as in DESIGN.md section 2"],
+    },
+    "C03": {
+        "topics": ["fld", "msg"],
+        "nontrivial": lambda c, i: "(set" in c and "ok x" in i,
+        "rule": FLD_MSG_RULE + "; the oracle compares Pack with the independent reference encoder harness/reflayout.go and unpacks the reference bytes; "
+                "non-trivial = distinct populated history that packs",
+        "trusted_base": MODEL_TB + ["harness/reflayout.go: reference layout written from the property text (EBCDIC code tables taken from the library, see C07)"],
+        "assumptions": ["coherent specs as in DESIGN.md section 2"],
+    },
+    "C04": {
+        "topics": ["fld", "msg", "enc", "pref"],
+        "nontrivial": lambda c, i: ("unpack" in c or ".dec" in c),
+        "rule": FLD_MSG_RULE + "; plus the decoder-level adversarial cases of C06/C07 (BER long forms with 0..127 length bytes, lengths >= 2^31 and >= 2^63, "
+                "negative lengths, every short prefix string); every implementation run is a child process under ulimit -v and a timeout; non-trivial = distinct decode case",
+        "trusted_base": MODEL_TB,
+        "assumptions": ["wall-clock time and allocation are runtime behaviour: measured by the harness, not proved"],
+    },
+    "C08": {
+        "topics": ["fld"],
+        "nontrivial": lambda c, i: "(set" in c or ("(unpack" in c and i.startswith("ok")),
+        "rule": FLD_MSG_RULE + "; non-trivial = distinct history that packs a value or accepts an encoding",
+        "trusted_base": MODEL_TB,
+        "assumptions": ["Go slices are shorter than 2^63 bytes"],
+    },
+    "C09": {
+        "topics": ["tlv"],
+        "nontrivial": lambda c, i: "c09" in c and i.startswith("ok"),
+        "rule": "generated fixed-width-tag and BER-TLV composites (nested templates included) with >= 2 set subfields: the canonical encoding assembled from separately packed "
+                "elements, all permutations of up to 4 (thorough: 6) elements and 24 sampled beyond, an unknown element (1-4 byte BER tag or unused fixed-width tag, "
+                "short and long-form lengths 0..200) inserted at every position with skipping on (same value expected) and off (error naming the tag), overrunning "
+                "skipped elements; non-trivial = distinct case whose unpack succeeds",
+        "trusted_base": MODEL_TB,
+        "assumptions": ["tag sets on which the sort function is a strict total order (DESIGN.md section 2.3)"],
+    },
+    "C10": {
+        "topics": ["fld", "msg"],
+        "nontrivial": lambda c, i: c.count("(unpack") >= 1 and ("(set" in c or c.count("(unpack") >= 2),
+        "rule": FLD_MSG_RULE + "; the oracle replays the history before the last unpack on one object and compares value, re-pack and JSON with a fresh object; "
+                "non-trivial = distinct history with prior state followed by an unpack",
+        "trusted_base": MODEL_TB,
+        "assumptions": [],
+    },
+    "C19": {
+        "topics": ["trunc", "msg"],
+        "nontrivial": lambda c, i: "c19" in c or "err" in i,
+        "rule": "every truncation offset (messages up to 70 bytes: all offsets; longer: ~40 sampled; thorough: all) of generated valid messages over coherent specs, "
+                "the owner of each offset computed from the lengths of the separately packed elements, elements before the owner compared with their decoded values; "
+                "plus the message histories of C01 for typing of Pack/Unpack failures; non-trivial = distinct truncation or failing case",
+        "trusted_base": MODEL_TB,
+        "assumptions": ["coherent specs (None.Fixed excluded: it is not prefix-intolerant)"],
+    },
     "C05": {
-        "topics": ["bm"],
+        "topics": ["bm", "msg"],
         "nontrivial": lambda c, i: i != "panic" and "(set " in c or "(unpack " in c and "ok x" in i,
         "rule": "bitmap histories (set/isset/len/pack/unpack/reset) for every block size 1..16 x both expansion modes x binary and hex encodings: "
                 "every single index in 1..4 blocks (+0, negative, one past), sampled pairs/triples with every bit read back (thorough: all pairs within two blocks for B<=2), "
